@@ -39,6 +39,7 @@ CONSTANTS
   GENVALS,  \* [operator -> [k |-> key, p |-> staked amount]] genesis validators
   DECI,     \* decimals of the staking asset (price 1, price decimals 0)
   PREC,     \* LegacyDec unit
+  UNBOND,   \* operatortypes.UnbondingExpiration: blocks after which delegation.EndBlock releases a record
   DEVS      \* names of the deviations present in the code (see header)
 
 OPS  == {OORD[i] : i \in DOMAIN OORD}
@@ -256,7 +257,7 @@ ApplyChanges(st, res) ==
       fin == FoldLeft(step, [vals |-> st.vals, ret |-> <<>>], res)
   IN [vals |-> fin.vals, ret |-> SortSeq(fin.ret, UpdLess)]
 
-EndBlock(st) ==
+DogfoodEndBlock(st) ==
   IF ~st.flag THEN Ok([st EXCEPT !.updates = <<>>, !.rsp = <<>>]) ELSE
   LET s1 == [st EXCEPT !.prev = [o \in OPS |-> NoKey]]
       \* pending undelegations: release the hold, forget the maturity epoch
@@ -287,6 +288,12 @@ EndBlock(st) ==
                    !.wasAct = [k \in KEYS |-> s4.rev[k] # NoOp /\ (s4.wasAct[k] \/ k \in DOMAIN ap.vals)],
                    !.lastTotal = IF Len(res) > 0 THEN d1.tot ELSE @,
                    !.updates = ap.ret, !.rsp = ap.ret, !.flag = FALSE])
+
+\* app.EndBlocker: ... dogfood, then delegation.EndBlock: a record whose completion height
+\* (start + UNBOND, pushed to h+1 while it is held) has come and that is not held is released
+EndBlock(st) ==
+  LET s == DogfoodEndBlock(st).st IN
+  Ok([s EXCEPT !.recs = [id \in {x \in DOMAIN s.recs : ~(s.recs[x].start + UNBOND <= s.h /\ HoldOf(s, x) = 0)} |-> s.recs[id]]])
 
 (***************************************************************************)
 (* dispatcher: one trace event = one Apply                                  *)
